@@ -16,7 +16,6 @@ package sequence
 
 // Next draws a number above everything drawn or announced before.
 //@ func Next
-//@   requires room:   seq < 18446744073709551615
 //@   modifies cell[uint64]
 //@   ensures  above:  result > old(seq)
 //@   ensures  issued: seq == result
